@@ -699,6 +699,59 @@ static bool hasNegPowOfSum(const Basic &b)
     return false;
 }
 
+// the result contains (sum)^k with an integer k <= -2 (as a Pow or as a factor of a Mul), outside function arguments
+static bool hasDeepNegPowOfSum(const Basic &b)
+{
+    auto deep = [](const Basic &base, const Basic &ex) {
+        return is_a<Add>(base) && is_a<Integer>(ex) && down_cast<const Integer &>(ex).as_integer_class() <= -2;
+    };
+    if (is_a<Pow>(b)) {
+        const Pow &p = down_cast<const Pow &>(b);
+        return deep(*p.get_base(), *p.get_exp()) || hasDeepNegPowOfSum(*p.get_base());
+    }
+    if (is_a<Mul>(b)) {
+        for (auto &p : down_cast<const Mul &>(b).get_dict())
+            if (deep(*p.first, *p.second) || hasDeepNegPowOfSum(*p.first))
+                return true;
+        return false;
+    }
+    if (is_a<Add>(b))
+        for (auto &p : down_cast<const Add &>(b).get_dict())
+            if (hasDeepNegPowOfSum(*p.first))
+                return true;
+    return false;
+}
+
+// some integer power of a sum in `b` has a base whose schoolbook expansion is a single term or a number
+static bool hasCollapsingPowBase(const Basic &b)
+{
+    auto collapses = [](const Basic &base, const Basic &ex) {
+        if (!is_a<Add>(base) || !is_a<Integer>(ex))
+            return false;
+        try {
+            g_work = 0;
+            return normalise(base).size() <= 1;
+        } catch (const std::exception &) {
+            return false;
+        }
+    };
+    if (is_a<Pow>(b)) {
+        const Pow &p = down_cast<const Pow &>(b);
+        return collapses(*p.get_base(), *p.get_exp()) || hasCollapsingPowBase(*p.get_base());
+    }
+    if (is_a<Mul>(b)) {
+        for (auto &p : down_cast<const Mul &>(b).get_dict())
+            if (collapses(*p.first, *p.second) || hasCollapsingPowBase(*p.first))
+                return true;
+        return false;
+    }
+    if (is_a<Add>(b))
+        for (auto &p : down_cast<const Add &>(b).get_dict())
+            if (hasCollapsingPowBase(*p.first))
+                return true;
+    return false;
+}
+
 // ------------------------------------------------------------------ running one op
 static const int NPTS = 3;
 
@@ -716,10 +769,9 @@ static void judgeExpand(const B &e, const B &r, bool radical, std::string &oracl
         B r2 = expand(r);
         if (!eq(*r, *r2) || vsexp::dump(*r2) != out) {
             std::string key = "idem";
-            // classification of the known family: the result contains a power -k (k >= 2) of a sum, or a product of
-            // several negative powers of sums, created by multiplying expanded keys; expand rewrites it on the
-            // second pass
-            if (!radical && hasNegPowOfSum(*e))
+            // classification of the known family D9b: the result contains (sum)^-k, k >= 2, created by multiplying
+            // expanded keys; expand rewrites it on the second pass
+            if (!radical && hasDeepNegPowOfSum(*r))
                 key = "idem-negpow";
             oracle = "FAIL:" + key + ":expand(expand(e)) = " + vsexp::dump(*r2).substr(0, 160) + " differs from expand(e) = "
                      + out.substr(0, 160);
@@ -778,10 +830,15 @@ static void judgeExpand(const B &e, const B &r, bool radical, std::string &oracl
                 const Add &a = down_cast<const Add &>(*r);
                 entries = a.get_dict().size() + (a.get_coef()->is_zero() ? 0 : 1);
                 if (entries != got.size()) {
-                    std::string key = hasNegPowOfSum(*e) ? "duplicate-negpow" : "duplicate";
-                    oracle = "FAIL:" + key + ":the sum has " + std::to_string(entries) + " entries but only "
-                             + std::to_string(got.size()) + " distinct monomials";
-                    return;
+                    if (hasNegPowOfSum(*e)) {
+                        // 1/(A*B) and 1/(A B expanded) are the same INV{...} factor for the oracle but different
+                        // keys for the library, which does not normalise rational functions: not a defect
+                        stat("ratfun_uncombined_denominators");
+                    } else {
+                        oracle = "FAIL:duplicate:the sum has " + std::to_string(entries) + " entries but only "
+                                 + std::to_string(got.size()) + " distinct monomials";
+                        return;
+                    }
                 }
             } else if (got.size() > 1) {
                 oracle = "FAIL:shape:result is not a sum but has " + std::to_string(got.size()) + " monomials";
@@ -891,7 +948,10 @@ std::string hx_run(const std::string &line, std::string &oracle)
         try {
             r = expand(e);
         } catch (const VerifAssertError &ex) {
-            oracle = std::string("FAIL:assert:") + ex.what();
+            // known family D9c: the expanded base of a power is a number or a monomial with a coefficient and is
+            // inserted as a key of the result (Add::is_canonical fails)
+            bool d9c = std::string(ex.what()).find("add.cpp") != std::string::npos && hasCollapsingPowBase(*e);
+            oracle = std::string(d9c ? "FAIL:assert-collapsed-base:" : "FAIL:assert:") + ex.what();
             return "E:Assert";
         } catch (const std::exception &ex) {
             oracle = std::string("FAIL:exception:") + exc_name(ex) + " " + ex.what();
@@ -1122,7 +1182,13 @@ static long expansionSize(const B &e, long workCap, size_t termCap)
     g_work = 0;
     long n = -1;
     try {
-        n = (long)normalise(*e).size();
+        PolyD p = normalise(*e);
+        n = (long)p.size();
+        // exponents beyond 48 are outside what the Lean normaliser accepts (NF.maxExp = 64)
+        for (auto &kv : p.t)
+            for (auto &x : kv.second.first.ex)
+                if (x.second > 48 || x.second < -48)
+                    n = -1;
     } catch (const std::exception &) {
         n = -1;
     }
